@@ -390,6 +390,16 @@ func (x *txnCtx) dupKey(key string) bool {
 	return false
 }
 
+// insertingAt reports whether the row at the offset is being inserted by this transaction.
+func (x *txnCtx) insertingAt(off uint32) bool {
+	for _, o := range x.mine {
+		if o == off {
+			return true
+		}
+	}
+	return false
+}
+
 func (x *txnCtx) keyed(op *Op) {
 	w := x.w
 	if x.dupKey(op.Key) {
@@ -511,7 +521,7 @@ func (x *txnCtx) checkFresh(r column.Row, off uint32) {
 func (x *txnCtx) inRow(r column.Row, off uint32, op *Op) {
 	x.ttlAcc = nil
 	for _, wr := range op.Writes {
-		if wr.TTL != 0 && wr.Via == 1 && x.w.ttl != nil {
+		if (wr.TTL != 0 || wr.Clear) && wr.Via == 1 && x.w.ttl != nil {
 			x.ttlAcc = x.txn.TTL() // obtained before the reads below, during which the scheduler may advance the clock
 		}
 	}
@@ -591,8 +601,23 @@ func (x *txnCtx) writes(r column.Row, off uint32, op *Op) {
 		case wr.Delete:
 			x.deleteAt(off)
 			continue
-		case (wr.TTL != 0 || wr.Extend != 0) && w.ttl != nil && w.ttl.inPass && w.avoid["ttl-change-during-pass"]:
+		case (wr.TTL != 0 || wr.Extend != 0 || wr.Clear) && w.ttl != nil && w.ttl.inPass && w.avoid["ttl-change-during-pass"]:
 			continue // see the gate in runTTLInBubble
+		case wr.Clear:
+			// the time-to-live is taken away again: whatever deadline the row had, committed or
+			// set earlier in this transaction, no longer applies
+			x.noteTTLWrite()
+			if wr.Via == 1 && x.ttlAcc != nil {
+				x.ttlAcc.Set(time.Duration(wr.TTL))
+			} else if until := r.SetTTL(time.Duration(wr.TTL)); !until.IsZero() {
+				w.fail(violation("ttl/deadline-returned", "row %d: SetTTL(%v) returned the deadline %v", off, time.Duration(wr.TTL), until))
+			}
+			if x.deleted(off) {
+				continue
+			}
+			x.mt.add(MOp{Kind: mPut, Off: off, Col: "expire", Val: MVal{U: 0}})
+			w.stats.probe("ttl-cleared")
+			continue
 		case wr.TTL != 0:
 			x.noteTTLWrite()
 			// the deadline is predicted here, not taken from the library: now (the fake clock of
@@ -628,6 +653,12 @@ func (x *txnCtx) writes(r column.Row, off uint32, op *Op) {
 				continue
 			}
 			_, exists := w.model.KeyOf(key)
+			if wr.Draft && (exists || !x.insertingAt(off)) {
+				continue // a draft key is only given to a row this call inserts, and never a key in use
+			}
+			if wr.Draft {
+				w.stats.probe("key-written-twice-in-one-commit")
+			}
 			r.SetKey(key)
 			if !exists {
 				kc, _ := w.model.KeyCol()
